@@ -392,6 +392,13 @@ impl<'a> MemberAttrs {
             .or_else(|| self.iter_for_kind_core(kind, fallible).find(|x| x.container_ty.is_none()))
     }
 
+    // A repeated as_type instruction casts back to the type of the member it lands on, not of the member it was written on
+    pub(crate) fn retarget_as_type(&'a mut self, this_ty: &syn::Type) {
+        for attr in self.attrs.iter_mut().filter(|x| x.original_instr == "as_type" && x.applicable_to[&Kind::FromOwned]) {
+            attr.attr.action = Some(quote!(~ as #this_ty));
+        }
+    }
+
     pub(crate) fn merge(&'a mut self, other: Self) {
         if self.skip_repeat {
             return;
